@@ -422,6 +422,13 @@ theorem _root_.KafVerif.C04.lenient_restore_no_progress :
     firstFrame (read (restoreAt { l := lostIdxLog0 true } 4).1.l 3 70).2 = (patch ((parse (tiny 4)).getD ⟨0, 0, 0, []⟩) 3).bytes := by
   decide
 
+set_option maxRecDepth 100000 in
+/-- non-vacuity of the hypotheses of `restore_rejects_committed_without_index` / `restore_rejects_after_index_loss`: the four-batch
+segment is listed, its index is lost, its base is below the store offset 4 -/
+example : (∃ g ∈ (lostIdxLog true).l.s3, (lostIdxLog true).noIdx.contains g.base = true ∧ g.base < 4) ∧
+    (∃ g ∈ (lostIdxLog0 true).s3, Loss.index g.base ∈ [Loss.seg 7, Loss.index 0] ∧ Loss.seg g.base ∉ [Loss.seg 7, Loss.index 0] ∧ g.base < 4) := by
+  decide
+
 /-! ### the code before the fix -/
 
 
@@ -480,7 +487,7 @@ example : RunOK (PLog.new 100 true 0)
     [.append (tiny 1), .append (tiny 2), .flush, .append (tiny 3), .gate, .append (tiny 4), .read 2 61, .release,
      .restartAt 2, .append (tiny 5), .read 3 70, .dropcache, .read 1 10] := by decide
 
-instance (op : Op) : Decidable (NoRestart op) := by cases op <;> unfold NoRestart <;> infer_instance
+instance instDecNoRestartC04 (op : Op) : Decidable (NoRestart op) := by cases op <;> unfold NoRestart <;> infer_instance
 def decRunOKG : (ops : List Op) → (l : PLog) → Decidable (RunOKG l ops)
   | [], l => inferInstanceAs (Decidable (Small l))
   | op :: t, l =>
